@@ -1761,6 +1761,21 @@ func (p *parser) primaryExpression() (Node, error) {
 		if err := p.advance(); err != nil {
 			return nil, err
 		}
+
+		switch node.(type) {
+		case *SliceNode,
+			*SliceCurrentNode,
+			*SliceStepNode,
+			*SliceStepCurrentNode:
+			// A projection whose left-hand side is a slice node is the
+			// slice's own projection, which is skipped when the slice is
+			// applied to a string. A parenthesised slice followed by [*] is
+			// not that projection.
+			node = &PipeNode{
+				Left:  node,
+				Right: CurrentNode{},
+			}
+		}
 	case lexer.OpenBraceToken:
 		if err := p.advance(); err != nil {
 			return nil, err
